@@ -50,10 +50,23 @@ def ref_pred(ref, placement, own_field='x'):
         return ('quant', 'exists', 'i', ('set', (r, A.num('1'))), ('bin', '>', A.var('i'), A.fld(own_field)))
     if placement == 'nested':
         return ('bin', 'and', own, A.not_(('bin', '=', ('bin', '+', r, A.num('1')), A.num('2'))))
+    if placement == 'index':  # the reference occurs only inside an array index
+        return ('bin', '>', ('index', A.fld('xs'), r), A.num('0'))
+    if placement == 'index-in-chain':
+        return ('bin', '>', ('field', ('index', A.fld('ms'), r), 'v'), A.fld(own_field))
+    if placement == 'index-in-domain':
+        return ('quant', 'exists', 'i', ('index', A.fld('rows'), r), ('bin', '>', A.var('i'), A.num('0')))
+    if placement == 'range-bound':
+        return ('bin', 'in', A.fld(own_field), ('range', A.num('0'), r, False, True))
+    if placement == 'set-element':
+        return ('bin', 'in', A.fld(own_field), ('set', (A.num('1'), r)))
+    if placement == 'function-argument':
+        return ('bin', '>', A.fld(own_field), ('call', 'abs', (r,)))
     raise ValueError(placement)
 
 
-PLACEMENTS = ('top', 'quant-body', 'quant-domain', 'nested')
+PLACEMENTS = ('top', 'quant-body', 'quant-domain', 'nested', 'index', 'index-in-chain', 'index-in-domain',
+              'range-bound', 'set-element', 'function-argument')
 
 HYGIENE = (
     ('unused-variable', ('quant', 'forall', 'i', A.fld('xs'), ('bin', '>', A.fld('x'), A.num('0')))),
